@@ -1168,10 +1168,21 @@ def _record_bound(b):
                 val = -c0_ / k_
                 CTX.rules.add_pure(at, 1, Poly.const(val))
                 CTX.bounds[at] = (val, val)
-                if val == 0:
-                    for nm_, d_ in list(CTX.defs.items()):
-                        if d_[0] in ('sin', 'cos') and at in dict(d_[1]):
-                            CTX.rules.add_pure(nm_, 1, Poly() if d_[0] == 'sin' else ONE)
+                # angle atoms whose angle mentions the atom: their value follows from the substituted angle
+                for nm_, d_ in list(CTX.defs.items()):
+                    if d_[0] == 'sin' and at in dict(d_[1]) and not nm_.endswith('__done'):
+                        e_ = dict(d_[1])[at]
+                        rest = tuple((v, k2) for v, k2 in d_[1] if v != at)
+                        try:
+                            sv, cv = sincos(SReal(Poly({rest: (val ** e_) / d_[2]}) if val != 0 else Poly()))
+                        except EngineError:
+                            continue
+                        cn = 'c_' + nm_[2:]
+                        if sv.d.is_const() and cv.d.is_const() and nm_ not in sv.vars() and cn not in cv.vars():
+                            CTX.rules.add_pure(nm_, 1, sv.n.scale(1 / sv.d.const_val()))
+                            CTX.rules.add_pure(cn, 1, cv.n.scale(1 / cv.d.const_val()))
+                            CTX.facts.append(CTX.zv(nm_) == sv.z3())
+                            CTX.facts.append(CTX.zv(cn) == cv.z3())
         return
     if b.k != 'cmp' or b.a not in ('>=', '>', '<=', '<') or not b.b.d.is_const():
         return
@@ -1467,6 +1478,12 @@ def sqrt(x):
     qn, rn = _best_split(x.n)
     qd, rd = _best_split(x.d)
     rad = SReal(normal(rn), normal(rd)).simp()
+    if x.nn and not rad.is_const():
+        # x = outer^2 * rad is a sum of squares; where outer is known to be non-zero, rad >= 0 follows
+        o_ = SReal(qn, qd).simp()
+        if o_.is_const() or _known_sign(o_) in ('pos', 'neg') or _interval_sign(o_) in ('pos', 'neg', 'nonzero'):
+            rad.nn = True
+            note_nonneg(rad)
     if rad.is_const() and rad.const() < 0:
         # negative constant times a square: only defined where the square vanishes
         nn = SBool.cmp('>=', x)
